@@ -8,3 +8,4 @@ pub mod gen;
 pub mod driver;
 pub mod shrink;
 pub mod stats;
+pub mod pristine;
